@@ -1,6 +1,7 @@
 import Fabio.Driver.Proto
 import Fabio.Driver.RouteJson
 import Fabio.Model.C16
+import Fabio.Model.C16Serve
 import Fabio.Model.C03
 /-!
 Driver handlers for C16.
@@ -470,6 +471,125 @@ def liveH : Handler := fun inp impl => do
   return ({ model := model, agree := model == impl, spec := bad.isEmpty, nontrivial := !drop.isEmpty && bs.length > 0,
             tag := bad.head?.getD s!"drop-{drop.length}" } : Verdict).toJson
 
+/-! ### c16.serve — the real binary: per-listener directors, transport credentials, message limits
+
+`agree`: `Serve.Proxy.call` (interceptor, open gates, director, pool with the credentials of every dialled
+connection) and `Serve.outcome` (assumed handshake behaviour, limits) predict for every call the status the
+caller gets and which backend handler runs; a forwarded call is relayed both ways unmodified.
+`spec` does not run the pool model: a call whose route exists may reach only that route's backend; when the
+route's own scheme and TLS options can reach the backend (TLS iff `grpcs`, certificate accepted) and the
+messages are within the configured limits, the call must reach it and be relayed; a message over a limit must
+be reported (`ResourceExhausted`), never dropped silently; no route ⇒ `NotFound`, nobody contacted. -/
+
+open Serve in
+def serveRoutes (inp : Json) : List (Nat × Nat × Tgt) :=
+  let rs := getArrD inp "routes"
+  (List.range rs.length).zip rs |>.map fun (i, r) =>
+    let scheme := getStrD r "scheme"
+    let b := getNatD r "b"
+    (i, b, { key := (scheme ++ "://b" ++ toString b).toList, grpcs := scheme == "grpcs",
+             skipVerify := getBoolD r "skip", serverName := s2l (getStrD r "sn") })
+
+open Serve in
+def serveBackendOf (impl : Json) (b : Nat) : Backend :=
+  match (getArrD impl "backends")[b]? with
+  | none => .plain
+  | some d => if getBoolD d "tls" then .tls ((strsOf d "names").map s2l) (getBoolD d "trusted") else .plain
+
+def hexLens (l : List String) : List Nat := l.map fun h => h.length / 2
+
+open Serve in
+def serveH : Handler := fun inp impl => do
+  let listeners := (getArrD inp "listeners").map (getBoolD · "tls")
+  let lim : Limits := { rx := match getNatD inp "rx" with | 0 => 4194304 | n => n,
+                        tx := match getNatD inp "tx" with | 0 => 4194304 | n => n }
+  let routes := serveRoutes inp
+  let host := s2l (getStrD impl "dial_host")
+  let routeOf (path : Str) : Option (Nat × Nat × Tgt) :=
+    routes.find? fun r => ("/svc.r" ++ toString r.1).toList.isPrefixOf path
+  let lookup : Table → Str → Str → Option Tgt := fun _ _ p => (routeOf p).map (·.2.2)
+  let calls := getArrD inp "calls"
+  let obs := getArrD impl "obs"
+  if calls.length != obs.length then
+    return ({ model := Json.null, agree := false, spec := true, nontrivial := false, tag := "harness-error" } : Verdict).toJson
+  let step := fun (acc : Proxy × List Json × Bool × Bool × String × List String × Nat) (co : Json × Json) =>
+    let (p, model, agree, spec, failTag, classes, fwds) := acc
+    let (c, o) := co
+    let l := getNatD c "l"
+    let method := s2l (getStrD o "method")
+    let sentMD := groupPairs c "md"
+    let req := natsOf (getArrD c "req")
+    let rep := natsOf (getArrD c "rep")
+    let scode := getNatD c "code"
+    let code := getNatD o "code"
+    let hits := getNatD o "hits"
+    let backend : Option Nat := (o.getObjValAs? Nat "backend").toOption
+    let sent := strsOf o "sent"
+    let replies := strsOf o "replies"
+    let saw := strsOf o "saw"
+    let got := strsOf o "got"
+    let relayed := getBoolD o "drained" && Spec.Wire.sameMsgs saw sent && Spec.Wire.sameMsgs got replies
+      && Spec.mdCarried sentMD (parseSMD o "bmd") && getStrD o "bmethod" == getStrD o "method"
+    -- the harness's messages have the sizes the input names
+    let sizesOK := hexLens sent == req && hexLens replies == rep
+    let (p', res) := p.call some lookup (fun _ _ => none) l true (toMD sentMD) method true
+    let rt := routeOf method
+    -- the model's prediction
+    let (cls, mcode, mback) : String × Nat × Option Nat :=
+      match res, rt with
+      | some (.status sc), _ => ((if sc == codeNotFound then "notfound" else "status"), sc, none)
+      | some (.proxied _ _ (some sec)), some (_, b, _) =>
+        let oc := outcome host lim sec (serveBackendOf impl b) req rep scode
+        if !handshake host sec (serveBackendOf impl b) then ("unreachable", oc, none)
+        else if !lim.allOK req rep then ("limit", oc, some b)
+        else ("forward", oc, some b)
+      | _, _ => ("bad-call", 0, none)
+    let agreeC := sizesOK && code == mcode &&
+      (match cls with
+       | "forward" => backend == mback && hits == 1 && relayed
+       | "limit" => (backend == mback || backend.isNone) && hits ≤ 1
+       | "bad-call" => false
+       | _ => backend.isNone && hits == 0)
+    -- the specification, from the input and the implementation's observation alone
+    let (specC, why) : Bool × String :=
+      match rt with
+      | none => (code == codeNotFound && hits == 0 && backend.isNone,
+                 if code != codeNotFound then "noroute-wrong-status" else "noroute-backend-contacted")
+      | some (_, b, t) =>
+        let only := hits ≤ 1 && (backend.isNone || backend == some b)
+        let ideal : Security := if t.grpcs then .tls t.serverName t.skipVerify else .insecure
+        let reach := handshake host ideal (serveBackendOf impl b)
+        let within := lim.allOK req rep
+        if !only then (false, "backend-of-no-matching-route")
+        else if !reach then (true, "")
+        else if !within then (code == codeResourceExhausted, "message-over-the-limit-not-reported")
+        else if backend != some b then
+          (false,
+            if code == codeResourceExhausted then "message-within-the-limits-rejected"
+            else if t.grpcs && !(listeners[l]?.getD false) then "grpcs-target-dialled-in-clear-text-on-a-listener-without-certificate-source"
+            else match res with
+              | some (.proxied _ (.reused _) (some sec)) =>
+                if sec != dialSecurity (listeners[l]?.getD false) t then "connection-dialled-with-another-routes-tls-options"
+                else "routed-call-not-forwarded"
+              | _ => "routed-call-not-forwarded")
+        else if code == codeResourceExhausted && scode != codeResourceExhausted then (false, "message-within-the-limits-rejected")
+        else if code != scode then (false, "status-altered")
+        else (relayed, "message-or-metadata-altered")
+    let tlsFwd := cls == "forward" && (match rt with | some (_, _, t) => t.grpcs | none => false)
+    let cls' := if tlsFwd then "forward-tls" else cls
+    (p', model ++ [Json.mkObj [("class", cls), ("code", natJ mcode), ("backend", match mback with | some b => natJ b | none => Json.null)]],
+     agree && agreeC, spec && specC,
+     (if failTag.isEmpty && !specC then why else if failTag.isEmpty && !agreeC then "differs-from-the-model:" ++ cls else failTag),
+     (if classes.contains cls' then classes else classes ++ [cls']),
+     fwds + (if cls == "forward" then 1 else 0))
+  let (_, model, agree, spec, failTag, classes, fwds) :=
+    (calls.zip obs).foldl step (Proxy.start listeners, [], true, true, "", [], 0)
+  let order := ["forward", "forward-tls", "limit", "unreachable", "notfound"]
+  let cls := (order.filter classes.contains).foldl (fun a c => if a.isEmpty then c else a ++ "+" ++ c) ""
+  let mixed := listeners.contains true && listeners.contains false
+  let tag := if failTag.isEmpty then (if mixed then "mixed:" else "") ++ cls else failTag
+  return ({ model := Json.arr model.toArray, agree := agree, spec := spec, nontrivial := fwds > 0, tag := tag } : Verdict).toJson
+
 def streams : List (String × Handler) :=
-  [("c16.pool", poolH), ("c16.call", callH), ("c16.race", raceH), ("c16.live", liveH)]
+  [("c16.pool", poolH), ("c16.call", callH), ("c16.race", raceH), ("c16.live", liveH), ("c16.serve", serveH)]
 end Fabio.Driver.C16
